@@ -1,8 +1,9 @@
 --------------------------- MODULE MCompileCmd_MC ---------------------------
 (***************************************************************************)
 (* Bounded exhaustive model of the command line `meson compile` hands to    *)
-(* ninja.  A state is one invocation (flags f, expressions X, where it is   *)
-(* started) against a fixed build directory T0 whose targets need no        *)
+(* ninja.  A state with ph = "flags" is one invocation (flags f, expressions *)
+(* X, cwd: where it is started) against a fixed build directory T0 whose    *)
+(* targets need no                                                           *)
 (* compiler (the harness configures exactly this project with the real      *)
 (* `meson setup`).  The laws say what a POSIX reading of every permitted    *)
 (* command line (NinjaReads: options with their arguments up to the first   *)
@@ -77,6 +78,14 @@ NinjaUnderstands ==
         /\ (X = <<>> /\ ~f.clean => r.operands = <<>>)                           \* no TARGET: the default target
 
 SomeArgv == PlanKind(f, X, T0) = "run" => Argvs # {}
+
+\* the msbuild clauses are satisfiable: the obvious command line (solution, -maxCpuCount[:N], -verbosity:minimal,
+\* the extra arguments, one -target:<id> per target, -target:Clean) passes all of them
+VsCanonical ==
+    <<"msbuild", "@SLN">> \o <<IF f.j >= 1 THEN "-maxCpuCount:" \o ToString(f.j) ELSE "-maxCpuCount">>
+    \o (IF f.v THEN <<>> ELSE <<"-verbosity:minimal">>) \o f.na
+    \o [k \in 1..Len(X) |-> "-target:" \o TargetOf(X[k], T0).id] \o (IF f.clean THEN <<"-target:Clean">> ELSE <<>>)
+VsSatisfiable == (\A k \in 1..Len(X) : Outcome(X[k], T0).k = "ok") => VsClause(VsCanonical, f, X, T0) = "ok"
 
 Export ==
     /\ TLCGet("stats").diameter >= 0
